@@ -16,15 +16,17 @@
 (***************************************************************************)
 EXTENDS TxCore, Json
 
-\* Properties whose action-level checks are enforced in this run.  Each check of the
-\* framework judges the same traces with Props = {its own property}: a trace is then
-\* rejected only for a reason that concerns that property, and validation continues
-\* past deviations that belong to another property's check.
-CONSTANT Props
-Chk(p, cond) == (p \notin Props) \/ cond
+\* Property checks never block the validation of a trace: a failed check is recorded as a
+\* deviation <<line, property, name>> and the logged state is adopted, so that the rest of
+\* the trace is still examined (and every further violation is found in the same run).
+\* Only an event that no action can explain at all rejects the trace.
+F(p, name, cond) == IF cond THEN {} ELSE {<<p, name>>}
 
 VARIABLES l,        \* next trace line
           begin,    \* projection at the begin of the running write transaction (RollbackExact)
+          adev,     \* deviations found by the action of the last event: set of <<property, name>>
+          devs,     \* deviations so far: set of <<line, property, name>> (first occurrence per trace)
+          seen,     \* <<property, name>> pairs already recorded for the current trace
           tick      \* what the last event touched: "q" a transaction ended / file (re)opened,
                     \* "io" disk or commit ghosts changed, "-" neither (the expensive disk
                     \* invariants are re-evaluated only when their inputs changed)
@@ -32,7 +34,7 @@ VARIABLES l,        \* next trace line
 Trace == ndJsonDeserialize("trace.ndjson")
 Ev == Trace[l]
 
-tvars == <<coreVars, l, begin, tick>>
+tvars == <<coreVars, l, begin, tick, adev, devs, seen>>
 
 RegSet(regs) == UNION {(regs[i][1])..(regs[i][1] + regs[i][2] - 1) : i \in 1..Len(regs)}
 SeqSet(s) == {s[i] : i \in 1..Len(s)}
@@ -88,15 +90,13 @@ Adopt(e) ==
 
 BeginW(e) ==
   /\ tx = NoTx /\ e.err = ""
-  /\ tx' = [root |-> cm.root, w |-> EmptyFn, new |-> {}, freed |-> {}, overflow |-> e.overflow]
+  /\ tx' = [root |-> cm.root, w |-> EmptyFn, new |-> {}, freed |-> {}, overflow |-> e.overflow, sw |-> FALSE]
   /\ begin' = ProjOf(e.st)
-  /\ e.root = cm.root
   /\ BindFile(e.st) /\ UNCHANGED <<cm, rds>> /\ KeepDisk /\ KeepGhost
 
 BeginR(e) ==
   /\ e.r \notin DOMAIN rds /\ e.err = ""
   /\ rds' = rds ++ [x \in {e.r} |-> cm]
-  /\ e.root = cm.root
   /\ BindOrKeep(e) /\ UNCHANGED <<cm, tx, begin>> /\ KeepDisk /\ KeepGhost
 
 EndR(e) ==
@@ -107,18 +107,11 @@ EndR(e) ==
 \* read through a read-only transaction: exactly the snapshot taken at its begin (C02)
 ReadR(e) ==
   /\ e.r \in DOMAIN rds
-  /\ Chk("C03", IF e.id \in DOMAIN rds[e.r].pages
-                   THEN e.err = "" /\ MatchPage(e.q, rds[e.r].pages[e.id])
-                   ELSE e.err # "")
   /\ UNCHANGED <<coreVars, begin>>
 
 \* read inside the write transaction: own writes, else committed (C03)
 ReadW(e) ==
   /\ tx # NoTx
-  /\ Chk("C03", IF e.id \in TxLive
-                   THEN \/ e.err = "" /\ MatchPage(e.q, TxView(e.id))
-                        \/ e.err # "" /\ e.id \in tx.new /\ e.id \notin DOMAIN tx.w    \* fresh page without contents
-                   ELSE e.err # "")
   /\ UNCHANGED <<coreVars, begin>>
 
 \* C04: ids handed out are unused
@@ -137,7 +130,6 @@ Alloc(e) ==
   /\ IF e.err = ""
        THEN LET ids == SeqSet(e.ids) IN
             /\ Len(e.ids) = e.n
-            /\ Chk("C04", Cardinality(ids) = e.n /\ AllocOK(ids))
             /\ tx' = [tx EXCEPT !.new = @ \cup ids, !.freed = @ \ ids]
        ELSE tx' = tx
   /\ BindFile(e.st) /\ UNCHANGED <<cm, rds, begin>> /\ KeepDisk /\ KeepGhost
@@ -176,24 +168,25 @@ CommitBegin(e) ==
 \* hook commit/switched: under the exclusive lock the new state becomes the visible one
 CommitSwitched(e) ==
   /\ tx # NoTx /\ inflight # None
-  /\ Chk("C02", DOMAIN rds = {} /\ e.st.pe /\ e.st.sh = 0)   \* no reader is alive, none can begin
   /\ cm' = inflight /\ cd' = inflight
-  /\ tx' = [tx EXCEPT !.w = EmptyFn, !.new = {}, !.freed = {}]   \* its effects are part of cm now
+  /\ tx' = [tx EXCEPT !.w = EmptyFn, !.new = {}, !.freed = {}, !.sw = TRUE]   \* its effects are part of cm now
   /\ BindFile(e.st)
   /\ UNCHANGED <<rds, begin, inflight, maybe>> /\ KeepDisk
 
 CommitOK(e) ==   \* Commit returned nil
   /\ tx # NoTx /\ e.err = ""
-  /\ cm = inflight                                \* it went through CommitSwitched
+  /\ tx.sw                                        \* it went through CommitSwitched
   /\ tx' = NoTx /\ inflight' = None /\ begin' = None
-  /\ BindFile(e.st) /\ UNCHANGED <<cm, rds, cd, maybe>> /\ KeepDisk
+  /\ maybe' = {}                                  \* its header replaced the slot of earlier failed attempts
+  /\ BindFile(e.st) /\ UNCHANGED <<cm, rds, cd>> /\ KeepDisk
 
 \* Commit returned an error, Rollback, or Close of a write transaction: no trace left (C07)
 Abort(e) ==
   /\ tx # NoTx
+  \* C08: a Commit may only fail if an injected I/O failure hit this transaction or the
+  \* file is out of space; the failure of an earlier transaction must not leak into it
   /\ tx' = NoTx /\ begin' = None
   /\ BindFile(e.st)
-  /\ Chk("C07", ProjOf(e.st) = begin)              \* RollbackExact: complete projection as at Begin
   /\ inflight' = None
   /\ maybe' = IF inflight # None /\ e.hdrIssued THEN maybe \cup {inflight} ELSE maybe
   /\ UNCHANGED <<cm, rds, cd>> /\ KeepDisk
@@ -210,11 +203,6 @@ Sync(e) ==
 
 \* observation: the real Open on a crash image of this point recovered this state
 Recovered(e) ==
-  /\ ("C01" \notin Props /\ "C08" \notin Props) \/ \E E \in Allowed :
-        /\ e.root = E.root
-        /\ LET got == PagesOf(e.pages) IN
-           /\ DOMAIN got = DOMAIN E.pages
-           /\ \A p \in DOMAIN got : MatchPage(got[p], E.pages[p])
   /\ UNCHANGED <<coreVars, begin>>
 
 \* C10: close and reopen - the complete projection of the reopened file equals the one
@@ -222,7 +210,6 @@ Recovered(e) ==
 Reopen(e) ==
   /\ tx = NoTx /\ DOMAIN rds = {}
   /\ BindFile(e.st)
-  /\ Chk("C10", ProjOf(e.st) = Proj)
   /\ KeepLogical /\ UNCHANGED begin /\ KeepDisk /\ KeepGhost
 
 \* observation without effect on the model (markers)
@@ -249,7 +236,7 @@ Act(e) ==
     [] e.ev = "W"              -> Write(e)
     [] e.ev = "S"              -> Sync(e)
     [] e.ev = "Recovered"      -> Recovered(e)
-    [] e.ev = "RecoverFailed"  -> ("C01" \notin Props /\ "C08" \notin Props) /\ UNCHANGED <<coreVars, begin>>
+    [] e.ev = "RecoverFailed"  -> Note(e)
     [] e.ev = "Reopen"         -> Reopen(e)
     [] e.ev = "Note"           -> Note(e)
     [] OTHER                   -> FALSE
@@ -267,7 +254,8 @@ TInit ==
   /\ cm = Cm0 /\ cd = Cm0 /\ tx = NoTx /\ rds = EmptyFn
   /\ al = Al0 /\ wm = Wm0 /\ hdr = Hdr0 /\ lk = Lk0 /\ stats = Stats0
   /\ dur = Dur0 /\ pend = <<>> /\ inflight = None /\ maybe = {}
-  /\ begin = None /\ l = 1 /\ tick = "q"
+  /\ begin = None /\ l = 1 /\ tick = "q" /\ adev = {} /\ devs = {} /\ seen = {}
+  /\ TLCSet(1, {})
 
 Reset ==
   /\ cm' = Cm0 /\ cd' = Cm0 /\ tx' = NoTx /\ rds' = EmptyFn
@@ -278,16 +266,79 @@ Reset ==
 TickOf(ev) == IF ev \in {"Adopt", "Commit", "Rollback", "Reopen", "Reset", "OpenResize"} THEN "q"
               ELSE IF ev \in {"W", "S", "T", "CommitBegin", "CommitSwitched"} THEN "io" ELSE "-"
 
+(***************************************************************************)
+(* Checks of the logged results against the model (evaluated in the state  *)
+(* before the event)                                                       *)
+(***************************************************************************)
+RecoveredOK(e) ==
+  \E E \in Allowed :
+     /\ e.root = E.root
+     /\ LET got == PagesOf(e.pages) IN
+        /\ DOMAIN got = DOMAIN E.pages
+        /\ \A p \in DOMAIN got : MatchPage(got[p], E.pages[p])
+
+ADev(e) ==
+  CASE e.ev = "ReadR" ->      \* C02/C03: exactly the snapshot taken at the begin of the reader
+         F("C03", "ReadR", e.r \in DOMAIN rds =>
+              IF e.id \in DOMAIN rds[e.r].pages
+                THEN e.err = "" /\ MatchPage(e.q, rds[e.r].pages[e.id])
+                ELSE e.err # "")
+    [] e.ev = "ReadW" ->      \* C03: own writes, else committed
+         F("C03", "ReadW", tx # NoTx =>
+              IF e.id \in TxLive
+                THEN \/ e.err = "" /\ MatchPage(e.q, TxView(e.id))
+                     \/ e.err # "" /\ e.id \in tx.new /\ e.id \notin DOMAIN tx.w    \* fresh page without contents
+                ELSE e.err # "")
+    [] e.ev = "BeginW" -> F("C03", "BeginRoot", e.err = "" => e.root = cm.root)
+    [] e.ev = "BeginR" -> F("C03", "BeginRoot", e.err = "" => e.root = cm.root)
+    [] e.ev = "Alloc" ->      \* C04
+         F("C04", "AllocOK", (tx # NoTx /\ e.err = "") =>
+              LET ids == SeqSet(e.ids) IN Cardinality(ids) = e.n /\ AllocOK(ids))
+    [] e.ev = "CommitSwitched" ->   \* C02: no reader is alive and none can begin while the state is switched
+         F("C02", "SwitchExclusive", DOMAIN rds = {} /\ e.st.pe /\ e.st.sh = 0)
+    [] (e.ev = "Commit" /\ e.err # "") \/ e.ev = "Rollback" ->
+         \* C07: the complete projection is the one of Begin
+         F("C07", "RollbackExact", tx # NoTx => ProjOf(e.st) = begin)
+         \* C08: a Commit may only fail if an injected I/O failure hit this transaction or the file
+         \* is out of space, and never after the in-memory switch
+         \cup (IF e.ev = "Commit" /\ tx # NoTx
+                THEN F("C08", "UnexplainedCommitError", e.faulty \/ e.oom) \cup F("C08", "ErrorAfterSwitch", ~tx.sw)
+                ELSE {})
+    [] e.ev = "Recovered" -> F("C01", "Recovered", RecoveredOK(e))
+    [] e.ev = "RecoverFailed" -> {<<"C01", "RecoverFailed">>}
+    [] e.ev = "Reopen" -> F("C10", "ReopenProjection", ProjOf(e.st) = Proj)
+    [] OTHER -> {}
+
+\* state properties (the disk properties are re-evaluated only when their inputs changed)
+InvDevs ==
+  F("C04", "Ownership", Ownership) \cup F("C11", "Partition", Partition)
+  \cup F("C11", "MetaAccounting", MetaAccounting) \cup F("C11", "Conservation", Conservation)
+  \cup F("C11", "StatsTruthful", StatsTruthful) \cup F("C11", "ExtentBound", ExtentBound)
+  \cup F("C03", "HeaderAgrees", HeaderAgrees)
+  \cup F("C09", "IdleLockFree", IdleLockFree) \cup F("C09", "SharedMatchesReaders", SharedMatchesReaders)
+  \cup (IF tick \in {"q", "io"} THEN F("C01", "CrashSafe", CrashSafe) ELSE {})
+  \cup (IF tick = "q" THEN F("C10", "ReopenStable", ReopenStable) ELSE {})
+
 TNext ==
   /\ l <= Len(Trace)
   /\ l' = l + 1
   /\ tick' = TickOf(Ev.ev)
+  /\ adev' = IF Ev.ev = "Reset" THEN {} ELSE ADev(Ev)
   /\ IF Ev.ev = "Reset" THEN Reset ELSE Act(Ev)
+  \* state properties are evaluated on the current state, i.e. the one the previous event
+  \* produced (line l - 1); the harness ends every batch with a final Note line
+  /\ LET inv == {<<l - 1, d[1], d[2]>> : d \in InvDevs \ seen}
+         act == {<<l, d[1], d[2]>> : d \in adev' \ (IF Ev.ev = "Reset" THEN {} ELSE seen \cup InvDevs)}
+     IN
+     /\ seen' = IF Ev.ev = "Reset" THEN {} ELSE seen \cup InvDevs \cup adev'
+     /\ devs' = IF inv \cup act = {} THEN devs ELSE devs \cup inv \cup act
+     /\ IF inv \cup act = {} THEN TRUE ELSE TLCSet(1, devs')
 
 CrashSafeT == tick \in {"q", "io"} => CrashSafe
 ReopenStableT == tick = "q" => ReopenStable
 
 TSpec == TInit /\ [][TNext]_tvars
 
-Post == PrintT("@D " \o ToString(TLCGet("stats").diameter))
+Post == /\ PrintT("@D " \o ToString(TLCGet("stats").diameter))
+        /\ PrintT("@V " \o ToString(TLCGet(1)))
 =============================================================================
